@@ -1,0 +1,317 @@
+//go:build verif
+
+// Contracts for package variants (comment-only; read by /verif's VC generator).
+package variants
+
+// ---------------------------------------------------------------------------------------------
+// Variant: representation invariant "the declared type and the dynamic type of the payload agree"
+//
+//@ spec tyInt() int = typeid("int")
+//@ spec tyLong() int = typeid("int64")
+//@ spec tyFloat() int = typeid("float32")
+//@ spec tyDouble() int = typeid("float64")
+//@ spec tyString() int = typeid("string")
+//@ spec tyBool() int = typeid("bool")
+//@ spec tyTime() int = typeid("time.Time")
+//@ spec tyDur() int = typeid("time.Duration")
+//@ spec tyArr() int = typeid("[]*Variant")
+//@ spec tyVar() int = typeid("*Variant")
+//
+// dynamic payload type that a declared variant type requires (0 = nil payload)
+//@ spec payloadOf(t VariantType) int =
+//@     t == Null ? 0 : (t == Integer ? tyInt() : (t == Long ? tyLong() : (t == Float ? tyFloat() : (t == Double ? tyDouble() :
+//@     (t == String ? tyString() : (t == Boolean ? tyBool() : (t == DateTime ? tyTime() : (t == TimeSpan ? tyDur() :
+//@     (t == Array ? tyArr() : -1)))))))))
+//
+// host types with a dedicated variant type (an Object payload is anything else, and never nil)
+//@ spec isHostTid(k int) bool = k == tyInt() || k == tyLong() || k == tyFloat() || k == tyDouble() || k == tyString() ||
+//@     k == tyBool() || k == tyTime() || k == tyDur() || k == tyArr() || k == tyVar() ||
+//@     k == typeid("int32") || k == typeid("uint") || k == typeid("uint32")
+//
+//@ pred vinv(v *Variant) = v != nil && Null <= v.typ && v.typ <= Array &&
+//@     (v.typ == Object ? (v.value != nil && !isHostTid(typeof(v.value))) : typeof(v.value) == payloadOf(v.typ)) &&
+//@     (v.typ == Null ==> v.value == nil)
+//
+// the variant type SetAsObject must choose for a host value
+//@ spec typeForHost(x any) VariantType =
+//@     x == nil ? Null : (typeof(x) == tyInt() || typeof(x) == typeid("int32") ? Integer :
+//@     (typeof(x) == tyLong() || typeof(x) == typeid("uint") || typeof(x) == typeid("uint32") ? Long :
+//@     (typeof(x) == tyFloat() ? Float : (typeof(x) == tyDouble() ? Double : (typeof(x) == tyBool() ? Boolean :
+//@     (typeof(x) == tyTime() ? DateTime : (typeof(x) == tyDur() ? TimeSpan : (typeof(x) == tyString() ? String :
+//@     (typeof(x) == tyArr() ? Array : Object)))))))))
+//
+//@ func EmptyVariant
+//@   ensures[C20] fresh(result) && vinv(result) && result.typ == Null
+//@   assigns nothing
+//@   nopanic
+//
+// ---- typed constructors: "reports the matching type and returns that value unchanged" ----------
+//@ func VariantFromInteger
+//@   ensures[C20] fresh(result) && vinv(result) && result.typ == Integer && result.value.(int) == value
+//@   assigns nothing
+//@   nopanic
+//@ func VariantFromLong
+//@   ensures[C20] fresh(result) && vinv(result) && result.typ == Long && result.value.(int64) == value
+//@   assigns nothing
+//@   nopanic
+//@ func VariantFromBoolean
+//@   ensures[C20] fresh(result) && vinv(result) && result.typ == Boolean && result.value.(bool) == value
+//@   assigns nothing
+//@   nopanic
+//@ func VariantFromFloat
+//@   ensures[C20] fresh(result) && vinv(result) && result.typ == Float && result.value == box(value)
+//@   assigns nothing
+//@   nopanic
+//@ func VariantFromDouble
+//@   ensures[C20] fresh(result) && vinv(result) && result.typ == Double && result.value == box(value)
+//@   assigns nothing
+//@   nopanic
+//@ func VariantFromString
+//@   ensures[C20] fresh(result) && vinv(result) && result.typ == String && result.value.(string) == value
+//@   assigns nothing
+//@   nopanic
+//@ func VariantFromDateTime
+//@   ensures[C20] fresh(result) && vinv(result) && result.typ == DateTime && result.value.(time.Time) == value
+//@   assigns nothing
+//@   nopanic
+//@ func VariantFromTimeSpan
+//@   ensures[C20] fresh(result) && vinv(result) && result.typ == TimeSpan && result.value.(time.Duration) == value
+//@   assigns nothing
+//@   nopanic
+//
+// ---- typed accessors: the payload, provided the variant has that type ----------------------------
+//@ func (c *Variant) Type
+//@   requires c != nil
+//@   ensures[C20] result == c.typ
+//@   assigns nothing
+//@   nopanic
+//@ func (c *Variant) AsInteger
+//@   requires vinv(c) && c.typ == Integer
+//@   ensures[C20] result == c.value.(int)
+//@   assigns nothing
+//@   nopanic
+//@ func (c *Variant) AsLong
+//@   requires vinv(c) && c.typ == Long
+//@   ensures[C20] result == c.value.(int64)
+//@   assigns nothing
+//@   nopanic
+//@ func (c *Variant) AsBoolean
+//@   requires vinv(c) && c.typ == Boolean
+//@   ensures[C20] result == c.value.(bool)
+//@   assigns nothing
+//@   nopanic
+//@ func (c *Variant) AsFloat
+//@   requires vinv(c) && c.typ == Float
+//@   ensures[C20] box(result) == c.value
+//@   assigns nothing
+//@   nopanic
+//@ func (c *Variant) AsDouble
+//@   requires vinv(c) && c.typ == Double
+//@   ensures[C20] box(result) == c.value
+//@   assigns nothing
+//@   nopanic
+//@ func (c *Variant) AsString
+//@   requires vinv(c) && c.typ == String
+//@   ensures[C20] result == c.value.(string)
+//@   assigns nothing
+//@   nopanic
+//@ func (c *Variant) AsDateTime
+//@   requires vinv(c) && c.typ == DateTime
+//@   ensures[C20] result == c.value.(time.Time)
+//@   assigns nothing
+//@   nopanic
+//@ func (c *Variant) AsTimeSpan
+//@   requires vinv(c) && c.typ == TimeSpan
+//@   ensures[C20] result == c.value.(time.Duration)
+//@   assigns nothing
+//@   nopanic
+//@ func (c *Variant) AsObject
+//@   requires c != nil
+//@   ensures[C20] result == c.value
+//@   assigns nothing
+//@   nopanic
+//
+// ---- typed setters ----------------------------------------------------------------------------------
+//@ func (c *Variant) SetAsInteger
+//@   requires c != nil
+//@   ensures[C20] vinv(c) && c.typ == Integer && c.value.(int) == value
+//@   assigns c.typ, c.value
+//@   nopanic
+//@ func (c *Variant) SetAsLong
+//@   requires c != nil
+//@   ensures[C20] vinv(c) && c.typ == Long && c.value.(int64) == value
+//@   assigns c.typ, c.value
+//@   nopanic
+//@ func (c *Variant) SetAsBoolean
+//@   requires c != nil
+//@   ensures[C20] vinv(c) && c.typ == Boolean && c.value.(bool) == value
+//@   assigns c.typ, c.value
+//@   nopanic
+//@ func (c *Variant) SetAsFloat
+//@   requires c != nil
+//@   ensures[C20] vinv(c) && c.typ == Float && c.value == box(value)
+//@   assigns c.typ, c.value
+//@   nopanic
+//@ func (c *Variant) SetAsDouble
+//@   requires c != nil
+//@   ensures[C20] vinv(c) && c.typ == Double && c.value == box(value)
+//@   assigns c.typ, c.value
+//@   nopanic
+//@ func (c *Variant) SetAsString
+//@   requires c != nil
+//@   ensures[C20] vinv(c) && c.typ == String && c.value.(string) == value
+//@   assigns c.typ, c.value
+//@   nopanic
+//@ func (c *Variant) SetAsDateTime
+//@   requires c != nil
+//@   ensures[C20] vinv(c) && c.typ == DateTime && c.value.(time.Time) == value
+//@   assigns c.typ, c.value
+//@   nopanic
+//@ func (c *Variant) SetAsTimeSpan
+//@   requires c != nil
+//@   ensures[C20] vinv(c) && c.typ == TimeSpan && c.value.(time.Duration) == value
+//@   assigns c.typ, c.value
+//@   nopanic
+//
+// ---- arrays: "keeps its own copy of the list" --------------------------------------------------------
+//@ spec arrOf(v *Variant) []*Variant = v.value.([]*Variant)
+//
+//@ func (c *Variant) SetAsArray
+//@   requires c != nil
+//@   ensures[C20] vinv(c) && c.typ == Array && len(arrOf(c)) == len(value) && fresh(arrOf(c))
+//@   ensures[C20] forall i int :: 0 <= i && i < len(value) ==> arrOf(c)[i] == old(value[i])
+//@   assigns c.typ, c.value
+//@   nopanic
+//@ func VariantFromArray
+//@   ensures[C20] fresh(result) && vinv(result) && result.typ == Array && len(arrOf(result)) == len(value) && fresh(arrOf(result))
+//@   ensures[C20] forall i int :: 0 <= i && i < len(value) ==> arrOf(result)[i] == old(value[i])
+//@   assigns nothing
+//@   nopanic
+//@ func (c *Variant) AsArray
+//@   requires vinv(c)
+//@   ensures[C20] c.typ == Array ==> result == arrOf(c)
+//@   ensures[C20] c.typ != Array ==> result == nil
+//@   assigns nothing
+//@   nopanic
+//@ func (c *Variant) Length
+//@   requires vinv(c)
+//@   ensures[C20] result == (c.typ == Array ? len(arrOf(c)) : 0)
+//@   assigns nothing
+//@   nopanic
+//
+// the generic setter: type chosen from the host value, integer widenings, own copy of a list,
+// type and payload of another variant
+//@ func (c *Variant) SetAsObject
+//@   requires c != nil
+//@   requires typeof(value) == tyVar() ==> vinv(value.(*Variant)) && value.(*Variant) != c
+//@   ensures[C20] vinv(c)
+//@   ensures[C20] typeof(value) != tyVar() ==> c.typ == typeForHost(value)
+//@   ensures[C20] typeof(value) == typeid("int32") ==> c.value.(int) == value.(int32)
+//@   ensures[C20] typeof(value) == typeid("uint32") ==> c.value.(int64) == value.(uint32)
+//@   ensures[C20] typeof(value) == typeid("uint") ==> c.value.(int64) == wrap64(value.(uint))
+//@   ensures[C20] value != nil && typeof(value) != typeid("int32") && typeof(value) != typeid("uint32") && typeof(value) != typeid("uint") &&
+//@       typeof(value) != tyArr() && typeof(value) != tyVar() ==> c.value == value
+//@   ensures[C20] typeof(value) == tyArr() ==> len(arrOf(c)) == len(value.([]*Variant)) && fresh(arrOf(c)) &&
+//@       (forall i int :: 0 <= i && i < len(arrOf(c)) ==> arrOf(c)[i] == old(value.([]*Variant)[i]))
+//@   ensures[C20] typeof(value) == tyVar() ==> c.typ == old(value.(*Variant).typ) &&
+//@       (c.typ != Array ==> c.value == old(value.(*Variant).value))
+//@   ensures[C20] typeof(value) == tyVar() && old(value.(*Variant).typ) == Array ==>
+//@       len(arrOf(c)) == old(len(arrOf(value.(*Variant)))) && fresh(arrOf(c)) &&
+//@       (forall i int :: 0 <= i && i < len(arrOf(c)) ==> arrOf(c)[i] == old(arrOf(value.(*Variant))[i]))
+//@   assigns c.typ, c.value
+//@   nopanic
+//
+//@ func NewVariant
+//@   requires typeof(value) == tyVar() ==> vinv(value.(*Variant))
+//@   ensures[C20] fresh(result) && vinv(result)
+//@   ensures[C20] typeof(value) != tyVar() ==> result.typ == typeForHost(value)
+//@   ensures[C20] value != nil && typeof(value) != typeid("int32") && typeof(value) != typeid("uint32") && typeof(value) != typeid("uint") &&
+//@       typeof(value) != tyArr() && typeof(value) != tyVar() ==> result.value == value
+//@   ensures[C20] typeof(value) == tyVar() ==> result.typ == value.(*Variant).typ &&
+//@       (result.typ != Array ==> result.value == value.(*Variant).value)
+//@   ensures[C20] typeof(value) == tyVar() && value.(*Variant).typ == Array ==>
+//@       len(arrOf(result)) == len(arrOf(value.(*Variant))) && fresh(arrOf(result)) &&
+//@       (forall i int :: 0 <= i && i < len(arrOf(result)) ==> arrOf(result)[i] == arrOf(value.(*Variant))[i])
+//@   assigns nothing
+//@   nopanic
+//@ func VariantFromObject
+//@   requires typeof(value) == tyVar() ==> vinv(value.(*Variant))
+//@   ensures[C20] fresh(result) && vinv(result)
+//@   ensures[C20] typeof(value) != tyVar() ==> result.typ == typeForHost(value)
+//@   assigns nothing
+//@   nopanic
+//
+// "a clone equals its original ... mutating a clone never changes the original": the clone is a fresh
+// object and, for arrays, owns a fresh backing array with the same elements
+//@ func (c *Variant) Clone
+//@   requires vinv(c)
+//@   ensures[C20] fresh(result) && vinv(result) && result.typ == c.typ
+//@   ensures[C20] c.typ != Array ==> result.value == c.value
+//@   ensures[C20] c.typ == Array ==> len(arrOf(result)) == len(arrOf(c)) && fresh(arrOf(result)) &&
+//@       (forall i int :: 0 <= i && i < len(arrOf(c)) ==> arrOf(result)[i] == arrOf(c)[i])
+//@   assigns nothing
+//@   nopanic
+//
+// "indexed writes past the end grow the array with nulls"
+//@ func (c *Variant) SetByIndex
+//@   requires vinv(c) && c.typ == Array && index >= 0
+//@   ensures[C20] vinv(c) && c.typ == Array && len(arrOf(c)) == max(old(len(arrOf(c))), index + 1)
+//@   ensures[C20] arrOf(c)[index] == element
+//@   ensures[C20] forall i int :: 0 <= i && i < old(len(arrOf(c))) && i != index ==> arrOf(c)[i] == old(arrOf(c)[i])
+//@   ensures[C20] forall i int :: old(len(arrOf(c))) <= i && i < index ==>
+//@       fresh(arrOf(c)[i]) && arrOf(c)[i].typ == Null && arrOf(c)[i].value == nil
+//@   assigns c.value, arrOf(c)[*]
+//@   nopanic
+//@   loop 0
+//@     invariant old(len(arrOf(c))) <= len(a) && len(a) <= max(old(len(arrOf(c))), index + 1) && allocated(a)
+//@     invariant forall i int :: 0 <= i && i < old(len(arrOf(c))) ==> a[i] == old(arrOf(c)[i])
+//@     invariant forall i int :: old(len(arrOf(c))) <= i && i < len(a) ==>
+//@         fresh(a[i]) && a[i].typ == Null && a[i].value == nil
+//@     invariant c.typ == Array && c.value == old(c.value)
+//@     invariant arr(a) == old(arr(arrOf(c))) || fresh(a)
+//@     decreases index + 1 - len(a)
+//
+//@ func (c *Variant) GetByIndex
+//@   requires vinv(c) && c.typ == Array && 0 <= index && index < len(arrOf(c))
+//@   ensures[C20] result == arrOf(c)[index]
+//@   assigns nothing
+//@   nopanic
+//
+//@ func (c *Variant) IsNull
+//@   requires c != nil
+//@   ensures[C20] result == (c.typ == Null)
+//@   assigns nothing
+//@   nopanic
+//@ func (c *Variant) IsEmpty
+//@   requires c != nil
+//@   ensures[C20] result == (c.value == nil)
+//@   assigns nothing
+//@   nopanic
+//@ func (c *Variant) Assign
+//@   requires c != nil && (value != nil ==> vinv(value))
+//@   ensures[C20] vinv(c) && c.typ == (value == nil ? Null : old(value.typ)) && c.value == (value == nil ? nil : old(value.value))
+//@   assigns c.typ, c.value
+//@   nopanic
+//@ func (c *Variant) Clear
+//@   requires c != nil
+//@   ensures[C20] vinv(c) && c.typ == Null
+//@   assigns c.typ, c.value
+//@   nopanic
+//
+// "equality is symmetric and never fails - arrays included, NaN (which equals nothing) excepted"
+//@ spec sameValue(a *Variant, b *Variant) bool = a.typ == b.typ && goeq(a.value, b.value)
+// supported values: scalars and flat arrays of scalars (an Object payload may be of an uncomparable type)
+//@ pred scalarInv(v *Variant) = vinv(v) && v.typ != Array && v.typ != Object
+//@ pred flatInv(v *Variant) = vinv(v) && v.typ != Object && (v.typ == Array ==>
+//@     (forall i int :: 0 <= i && i < len(arrOf(v)) ==> arrOf(v)[i] == nil || scalarInv(arrOf(v)[i])))
+//@ func (c *Variant) Equals
+//@   requires flatInv(c) && (obj != nil ==> flatInv(obj))
+//@   ensures[C20] obj == nil ==> !result
+//@   ensures[C20] obj != nil && !(c.typ == Array && obj.typ == Array) ==> result == sameValue(c, obj)
+//@   ensures[C20] obj != nil && c.typ == Array && obj.typ == Array && len(arrOf(c)) != len(arrOf(obj)) ==> !result
+//@   assigns nothing
+//@   nopanic
+//@   decreases c.typ == Array ? 1 : 0
+//@   loop 0
+//@     invariant -1 <= rangeindex && rangeindex < len(a1)
+//@     decreases len(a1) - rangeindex
